@@ -92,6 +92,22 @@ def run(R, ctx):
     cls = [ed.classify_local(sb, t['dest']['l']) for bb, t in sb.calls() if effect_class(callee_name(t)) in ('FS_REMOVE', 'FS_SYMLINK')]
     R.check('R11.3', f"{sb.path}|failures-reported-not-propagated", ret_unit and cls and all('handle' in c or 'report' in c for c in cls) and not any('propagate' in c or 'panic' in c for c in cls),
             "remove/create of the link: failures inspected and reported, the function returns ()", "a failing symlink replacement is propagated (would abort the rotation) or unobserved", where=sb.loc())
+    # a kill between the replacement of the link and the creation of the file it points to leaves a DANGLING link: the probe that decides
+    # whether an old link has to be removed must not follow the link (symlink_metadata / is_symlink / read_link), otherwise the left-over
+    # link is taken for absent, symlink() fails with EEXIST at the restart and the link keeps pointing to a file that does not exist
+    scope = [sb] + [f.bodies[x] for x in cg.reachable([sb.path], spawn=False) if x in f.bodies and x != sb.path and
+                    (x.startswith(sb.path + '::{closure') or only_called_from(cg, root_fn(x), {sb.path}))]
+    probes = [(x.path, callee_name(t)) for x in scope for _, t in x.calls()
+              if re.search(r'^std::(fs::(symlink_metadata|metadata|read_link|exists)|path::Path::(exists|try_exists|metadata|symlink_metadata|is_symlink|is_file|is_dir|read_link))$', callee_name(t))]
+    nofollow = [p_ for p_ in probes if re.search(r'symlink_metadata$|is_symlink$|read_link$', p_[1])]
+    follow = [p_ for p_ in probes if p_ not in nofollow]
+    removes = [1 for x in scope for _, t in x.calls() if effect_class(callee_name(t)) == 'FS_REMOVE']
+    if removes and probes:
+        R.check('R11.3', f"{sb.path}|left-over-link-detected-without-following-it", bool(nofollow) and not follow,
+                f"old link probed with {sorted({p_[1] for p_ in nofollow})}",
+                f"the old link is probed with {sorted({p_[1] for p_ in follow})}, which follows the link: a dangling link (left by a kill between the link replacement and "
+                "the creation of the file) is taken for absent, is not removed, and the symlink() that follows fails with EEXIST - the restart reports an error and the link "
+                "keeps pointing to a file that does not exist", where=sb.loc())
     # R11.4
     ib = ctx.body(r'^writers::file_log_writer::state::State::initialize$')
     reads = cg.reaches_effect(ib.path, lambda n_, t: effect_class(n_) == 'FS_OPEN_R' or re.search(r'read_to_string$|read_to_end$|BufRead::read_line$|^std::fs::read(_to_string)?$', n_) is not None,
